@@ -108,7 +108,8 @@ function inject(rng, fs_, st) {
       const garbage = rng.pick(['b', ')', ']', '#', '@', '1x', '"q"', ';', '=', '=>', '++', '}'])
       if (texts.length && rng.bool(0.5)) {
         const t = rng.pick(texts)
-        const f = withReplaced(t, (n) => ({ t: 'raw', wxml: '{{ a ' + garbage + ' }}' }))
+        // (a comment in front: an adjacent text node ending in `{` would otherwise turn `{{ a } }}` into the legal `{{ {a} }}`)
+        const f = withReplaced(t, (n) => ({ t: 'raw', wxml: '<!---->{{ a ' + garbage + ' }}' }))
         return f && { text: printMain(f), kind, site: 'text binding + ' + garbage }
       }
       if (!els.length) return null
